@@ -192,6 +192,19 @@ def run(m: Model, r: Report, tier: str) -> None:
                 f"{rc_cls.qualname}.{attr}#unset-default",
                 f"UDSRequestConfig.{attr} defaults to `{ast.unparse(dflt) if dflt is not None else '<no default>'}`: with the `is not None` override test "
                 f"every request that does not set {attr} then ignores the client's {attr}", loc=rc_cls.loc)
+    # nowhere on the way to request_unsafe is an override resolved by truthiness: `config.max_retry or default` replaces an explicit 0
+    n_or = 0
+    for mod_q in (CLIENT, "gallia.services.uds.ecu"):
+        for f_ in m.functions():
+            if f_.module.name != mod_q:
+                continue
+            for n_ in ast.walk(f_.node):
+                if isinstance(n_, ast.BoolOp) and isinstance(n_.op, ast.Or) and isinstance(n_.values[0], ast.Attribute) and n_.values[0].attr in ("max_retry", "timeout") \
+                        and "config" in ast.unparse(n_.values[0].value):
+                    n_or += 1
+                    r.check(False, "R7", f"{f_.qualname}#truthiness-override:{n_.values[0].attr}", f"`{ast.unparse(n_)}` treats an explicit per-request 0 as unset and substitutes the "
+                            "client default: a request that must be sent once (max_retry=0) is retransmitted", loc=f"{f_.module.relpath}:{n_.lineno}")
+    r.ok("R7", "no-truthiness-overrides", f"{n_or} `config.x or default` expressions in client / ecu")
     # the per-request config object itself: the caller's object when one is given, a fresh (all unset) one otherwise
     from sa import miniterp as _mt4
     cpar = fn.params()[2] if len(fn.params()) > 2 else "config"
@@ -349,6 +362,8 @@ def run(m: Model, r: Report, tier: str) -> None:
     from sa.uds_rules import reconnect_unsafe_rule
     reconnect_unsafe_rule(m, r, "R6")
     # busy / pending / final negative answers are recognised on typed negative responses only, which are exactly three bytes long (ISO 14229-1)
+    from sa.uds_rules import negative_route_strict
+    negative_route_strict(m, r, "R9")
     nr = m.require_class("gallia.services.uds.core.service.NegativeResponse")
     mn_, mx_ = m.class_kw(nr, "minimal_length"), m.class_kw(nr, "maximal_length")
     r.check(mn_ == 3 and mx_ == 3, "R9", f"{nr.qualname}#length", f"NegativeResponse accepts lengths {mn_}..{mx_}: a malformed frame such as 7F 22 21 00 is then taken as busyRepeatRequest "
